@@ -94,11 +94,43 @@ func keyCombos() []Letter {
 	return out
 }
 
+// ReqCombos: for Req3 (single resolver) and MultiReq3 (batch resolver), whose `total`
+// @requires qty: Int!, label: String!, ratio: Float!: every combination, per required field,
+// of {W well-typed, A absent, N null, S scalar of the wrong JSON type (string for Int / Float,
+// number for String), O object, L list}: 2 x 216 representations. Names "Req3:WSO".
+var ReqCombos = reqCombos()
+
+func reqCombos() []Letter {
+	fields := []string{"qty", "label", "ratio"}
+	vals := map[byte][]string{
+		'W': {`4`, `"L"`, `2.5`}, 'N': {`null`, `null`, `null`}, 'S': {`"a lot"`, `5`, `"x"`},
+		'O': {`{"a":1}`, `{"a":1}`, `{"a":1}`}, 'L': {`[1]`, `["L"]`, `[2.5]`},
+	}
+	classes := "WANSOL"
+	var out []Letter
+	for _, typ := range []string{"Req3", "MultiReq3"} {
+		for c := 0; c < 216; c++ {
+			name, js := typ+":", `{"__typename":"`+typ+`","id":"1"`
+			for f, x := 0, c; f < 3; f, x = f+1, x/6 {
+				cl := classes[x%6]
+				name += string(cl)
+				if cl != 'A' {
+					js += `,"` + fields[f] + `":` + vals[cl][f]
+				}
+			}
+			out = append(out, Letter{name, js + "}", name[len(name)-3:] == "WWW"})
+		}
+	}
+	return out
+}
+
 // Companions are paired with every key combination (both orders): a well-formed
 // representation of the same type with other key values, and one of another type.
 var Companions = map[string][]Letter{
-	"Tri":      {{"Tri:id9", `{"__typename":"Tri","id":"p9"}`, true}, {"S1", `{"__typename":"Single","id":"1"}`, true}},
-	"MultiTri": {{"MultiTri:id9", `{"__typename":"MultiTri","id":"p9"}`, true}, {"S1", `{"__typename":"Single","id":"1"}`, true}},
+	"Tri":       {{"Tri:id9", `{"__typename":"Tri","id":"p9"}`, true}, {"S1", `{"__typename":"Single","id":"1"}`, true}},
+	"Req3":      {{"Req3:id9", `{"__typename":"Req3","id":"9","qty":1,"label":"Z","ratio":0.5}`, true}, {"S1", `{"__typename":"Single","id":"1"}`, true}},
+	"MultiReq3": {{"MultiReq3:id9", `{"__typename":"MultiReq3","id":"9","qty":1,"label":"Z","ratio":0.5}`, true}, {"S1", `{"__typename":"Single","id":"1"}`, true}},
+	"MultiTri":  {{"MultiTri:id9", `{"__typename":"MultiTri","id":"p9"}`, true}, {"S1", `{"__typename":"Single","id":"1"}`, true}},
 }
 
 func letter(name string) (Letter, bool) {
@@ -108,6 +140,11 @@ func letter(name string) (Letter, bool) {
 		}
 	}
 	for _, l := range KeyCombos {
+		if l.Name == name {
+			return l, true
+		}
+	}
+	for _, l := range ReqCombos {
 		if l.Name == name {
 			return l, true
 		}
